@@ -93,6 +93,8 @@ def run_kani(ov, target_dir, hs, tier_cfg, out_json, logfile, playback=False, jo
             cmd += ["-j", str(j)]
         cmd += ["--export-json", out_json]
     mem = max([h.mem_gb or tier_cfg["mem_gb"] for h in hs])
+    if playback:
+        mem = 48  # kani-driver itself parses the JSON trace in memory
     env = dict(os.environ)
     env.update(ov_mod.ENV_OFFLINE)
     env.pop("RUSTFLAGS", None)
